@@ -45,7 +45,11 @@ struct LibHeader {
 pub enum Outcome {
     HeaderRejected,
     ObjectsRejected,
-    Accepted { headers: usize, objects: usize, measurements: usize },
+    Accepted {
+        headers: usize,
+        objects: usize,
+        measurements: usize,
+    },
 }
 
 type Viol = (String, String, String);
@@ -58,8 +62,16 @@ fn lib_headers(p: &ParsedFragment) -> Option<Vec<LibHeader>> {
         let q = h.details.qualifier().as_u8();
         let (start, stop, count) = match &h.details {
             HeaderDetails::AllObjects(_) => (0, 0, 0),
-            HeaderDetails::OneByteStartStop(a, b, _) => (*a as u32, *b as u32, (*b as u32).wrapping_sub(*a as u32).wrapping_add(1)),
-            HeaderDetails::TwoByteStartStop(a, b, _) => (*a as u32, *b as u32, (*b as u32).wrapping_sub(*a as u32).wrapping_add(1)),
+            HeaderDetails::OneByteStartStop(a, b, _) => (
+                *a as u32,
+                *b as u32,
+                (*b as u32).wrapping_sub(*a as u32).wrapping_add(1),
+            ),
+            HeaderDetails::TwoByteStartStop(a, b, _) => (
+                *a as u32,
+                *b as u32,
+                (*b as u32).wrapping_sub(*a as u32).wrapping_add(1),
+            ),
             HeaderDetails::OneByteCount(c, _) => (0, 0, *c as u32),
             HeaderDetails::TwoByteCount(c, _) => (0, 0, *c as u32),
             HeaderDetails::OneByteCountAndPrefix(c, _) => (0, 0, *c as u32),
@@ -80,7 +92,16 @@ fn lib_headers(p: &ParsedFragment) -> Option<Vec<LibHeader>> {
                 items += 1;
             }
         }
-        out.push(LibHeader { g, v, q, start, stop, count, indices, items });
+        out.push(LibHeader {
+            g,
+            v,
+            q,
+            start,
+            stop,
+            count,
+            indices,
+            items,
+        });
     }
     Some(out)
 }
@@ -93,7 +114,9 @@ fn rval_eq(r: &RVal, m: &Val) -> bool {
         (RVal::U32(a), Val::U16(b)) => *a == *b as u32,
         (RVal::F64(a), Val::I32(b)) => *a == *b as f64,
         (RVal::F64(a), Val::I16(b)) => *a == *b as f64,
-        (RVal::F64(a), Val::F32(b)) => a.to_bits() == (*b as f64).to_bits() || (a.is_nan() && b.is_nan()),
+        (RVal::F64(a), Val::F32(b)) => {
+            a.to_bits() == (*b as f64).to_bits() || (a.is_nan() && b.is_nan())
+        }
         (RVal::F64(a), Val::F64(b)) => a.to_bits() == b.to_bits() || (a.is_nan() && b.is_nan()),
         (RVal::F64(a), Val::U32(b)) => *a == *b as f64,
         (RVal::F64(a), Val::U16(b)) => *a == *b as f64,
@@ -106,22 +129,53 @@ fn rval_eq(r: &RVal, m: &Val) -> bool {
 /// typed extraction of the library vs the reference measurement decoders
 fn compare_measurements(recs: &[Rec], meas: &[Meas], times_defined: bool) -> Result<usize, Viol> {
     // the reference decodes command events and dead-bands too; the recorder flattens them differently: compare the common kinds
-    let keep = |p: ra::PType| !matches!(p, ra::PType::BinaryCommandEvent | ra::PType::AnalogCommandEvent | ra::PType::AnalogDeadBand | ra::PType::UnsignedInteger);
+    let keep = |p: ra::PType| {
+        !matches!(
+            p,
+            ra::PType::BinaryCommandEvent
+                | ra::PType::AnalogCommandEvent
+                | ra::PType::AnalogDeadBand
+                | ra::PType::UnsignedInteger
+        )
+    };
     let rs: Vec<&Rec> = recs.iter().filter(|r| keep(r.ptype)).collect();
     let ms: Vec<&Meas> = meas.iter().filter(|m| keep(m.ptype)).collect();
     if rs.len() != ms.len() {
-        return Err(("extraction_count".into(), "count".into(), format!("extraction delivered {} measurements, the reference decodes {}", rs.len(), ms.len())));
+        return Err((
+            "extraction_count".into(),
+            "count".into(),
+            format!(
+                "extraction delivered {} measurements, the reference decodes {}",
+                rs.len(),
+                ms.len()
+            ),
+        ));
     }
     for (r, m) in rs.iter().zip(ms.iter()) {
         let sig = format!("g{}v{}", m.group, m.var);
         if r.ptype != m.ptype || r.group != m.group || r.var != m.var {
-            return Err(("extraction_type".into(), sig, format!("extraction delivered {r:?}, reference {m:?}")));
+            return Err((
+                "extraction_type".into(),
+                sig,
+                format!("extraction delivered {r:?}, reference {m:?}"),
+            ));
         }
         if r.index as u32 != m.index {
-            return Err(("extraction_index".into(), sig, format!("index {} delivered, {} on the wire ({m:?})", r.index, m.index)));
+            return Err((
+                "extraction_index".into(),
+                sig,
+                format!(
+                    "index {} delivered, {} on the wire ({m:?})",
+                    r.index, m.index
+                ),
+            ));
         }
         if !rval_eq(&r.val, &m.val) {
-            return Err(("extraction_value".into(), sig, format!("value {:?} delivered, {:?} on the wire", r.val, m.val)));
+            return Err((
+                "extraction_value".into(),
+                sig,
+                format!("value {:?} delivered, {:?} on the wire", r.val, m.val),
+            ));
         }
         if let Some(f) = m.flags {
             // the reference masks the state bits of binary types out of the octet; the library keeps them in
@@ -131,7 +185,11 @@ fn compare_measurements(recs: &[Rec], meas: &[Meas], times_defined: bool) -> Res
                 _ => 0xFF,
             };
             if r.flags & mask != f & mask {
-                return Err(("extraction_flags".into(), sig, format!("flags {:#04x} delivered, {f:#04x} on the wire", r.flags)));
+                return Err((
+                    "extraction_flags".into(),
+                    sig,
+                    format!("flags {:#04x} delivered, {f:#04x} on the wire", r.flags),
+                ));
             }
         }
         match (r.time, m.time) {
@@ -141,7 +199,11 @@ fn compare_measurements(recs: &[Rec], meas: &[Meas], times_defined: bool) -> Res
             (a, b) => {
                 // relative time without a preceding common time: the library delivers no time
                 if !(m.rel_time.is_some() && b.is_none() && a.is_none()) {
-                    return Err(("extraction_time".into(), sig, format!("time {a:?} delivered, {b:?} on the wire ({m:?})")));
+                    return Err((
+                        "extraction_time".into(),
+                        sig,
+                        format!("time {a:?} delivered, {b:?} on the wire ({m:?})"),
+                    ));
                 }
             }
         }
@@ -151,12 +213,18 @@ fn compare_measurements(recs: &[Rec], meas: &[Meas], times_defined: bool) -> Res
 
 /// compare the library's view of a fragment with the reference's
 pub fn compare(f: &[u8], zl: bool, must_accept: bool) -> Result<Outcome, Viol> {
-    let opts = ParseOptions { parse_zero_length_strings: zl };
+    let opts = ParseOptions {
+        parse_zero_length_strings: zl,
+    };
     let p = match ParsedFragment::parse(opts, f) {
         Ok(p) => p,
         Err(e) => {
             if must_accept {
-                return Err(("encoder_output_rejected".into(), "header".into(), format!("the parser rejects the fragment header: {e:?}")));
+                return Err((
+                    "encoder_output_rejected".into(),
+                    "header".into(),
+                    format!("the parser rejects the fragment header: {e:?}"),
+                ));
             }
             return Ok(Outcome::HeaderRejected);
         }
@@ -164,29 +232,69 @@ pub fn compare(f: &[u8], zl: bool, must_accept: bool) -> Result<Outcome, Viol> {
     let func = f[1];
     let is_rsp = func == ra::F_RESPONSE || func == ra::F_UNSOL_RESPONSE;
     // header fields
-    if p.control.seq.value() != f[0] & 0x0F || p.control.fir != (f[0] & 0x80 != 0) || p.control.fin != (f[0] & 0x40 != 0) || p.control.con != (f[0] & 0x20 != 0) || p.control.uns != (f[0] & 0x10 != 0) {
-        return Err(("control_field".into(), "control".into(), format!("control octet {:#04x} parsed as {:?}", f[0], p.control)));
+    if p.control.seq.value() != f[0] & 0x0F
+        || p.control.fir != (f[0] & 0x80 != 0)
+        || p.control.fin != (f[0] & 0x40 != 0)
+        || p.control.con != (f[0] & 0x20 != 0)
+        || p.control.uns != (f[0] & 0x10 != 0)
+    {
+        return Err((
+            "control_field".into(),
+            "control".into(),
+            format!("control octet {:#04x} parsed as {:?}", f[0], p.control),
+        ));
     }
     if p.function.as_u8() != func {
-        return Err(("function".into(), "function".into(), format!("function {func} parsed as {:?}", p.function)));
+        return Err((
+            "function".into(),
+            "function".into(),
+            format!("function {func} parsed as {:?}", p.function),
+        ));
     }
     let data = if is_rsp { &f[4..] } else { &f[2..] };
     if p.raw_objects != data {
-        return Err(("raw_objects".into(), "raw".into(), format!("raw objects are {} bytes, {} follow the header", p.raw_objects.len(), data.len())));
+        return Err((
+            "raw_objects".into(),
+            "raw".into(),
+            format!(
+                "raw objects are {} bytes, {} follow the header",
+                p.raw_objects.len(),
+                data.len()
+            ),
+        ));
     }
     if is_rsp {
         if let Some(iin) = p.iin {
             if iin.iin1.value != f[2] || iin.iin2.value != f[3] {
-                return Err(("iin".into(), "iin".into(), format!("IIN {:02x}{:02x} parsed as {:02x}{:02x}", f[2], f[3], iin.iin1.value, iin.iin2.value)));
+                return Err((
+                    "iin".into(),
+                    "iin".into(),
+                    format!(
+                        "IIN {:02x}{:02x} parsed as {:02x}{:02x}",
+                        f[2], f[3], iin.iin1.value, iin.iin2.value
+                    ),
+                ));
             }
         } else {
-            return Err(("iin".into(), "missing".into(), "response parsed without IIN".into()));
+            return Err((
+                "iin".into(),
+                "missing".into(),
+                "response parsed without IIN".into(),
+            ));
         }
     }
     let w = ra::walk(func, data, zl);
     let Some(lh) = lib_headers(&p) else {
         if must_accept {
-            return Err(("encoder_output_rejected".into(), format!("{:?}", p.objects.err()).chars().take(60).collect(), format!("the parser rejects the objects: {:?} (reference: {:?})", p.objects.err(), w.error)));
+            return Err((
+                "encoder_output_rejected".into(),
+                format!("{:?}", p.objects.err()).chars().take(60).collect(),
+                format!(
+                    "the parser rejects the objects: {:?} (reference: {:?})",
+                    p.objects.err(),
+                    w.error
+                ),
+            ));
         }
         if w.error.is_none() && w.defined {
             out::count("library_stricter_than_reference", 1);
@@ -196,7 +304,11 @@ pub fn compare(f: &[u8], zl: bool, must_accept: bool) -> Result<Outcome, Viol> {
     // device attributes (group 0) are compared at header level only
     if lh.iter().any(|h| h.g == 0) {
         out::count("attribute_fragments_not_judged", 1);
-        return Ok(Outcome::Accepted { headers: lh.len(), objects: 0, measurements: 0 });
+        return Ok(Outcome::Accepted {
+            headers: lh.len(),
+            objects: 0,
+            measurements: 0,
+        });
     }
     // an accepted free-format header carries exactly one object (that is what iterating it yields)
     if let Some(h) = lh.iter().find(|h| h.q == ra::Q_FREE16 && h.count != 1) {
@@ -205,7 +317,10 @@ pub fn compare(f: &[u8], zl: bool, must_accept: bool) -> Result<Outcome, Viol> {
     // the library accepted: the bytes must be exactly what the headers imply
     if let Some(e) = &w.error {
         match e {
-            ra::WalkErr::Truncated | ra::WalkErr::InvalidRange | ra::WalkErr::ZeroLengthOctets | ra::WalkErr::BadFreeFormat => {
+            ra::WalkErr::Truncated
+            | ra::WalkErr::InvalidRange
+            | ra::WalkErr::ZeroLengthOctets
+            | ra::WalkErr::BadFreeFormat => {
                 if w.defined || matches!(e, ra::WalkErr::Truncated | ra::WalkErr::InvalidRange) {
                     return Err(("accepted_malformed".into(), format!("{e:?}").chars().take(16).collect(), format!("the parser accepts {} object bytes that the reference rejects: {e:?} (library headers {lh:?})", data.len())));
                 }
@@ -214,27 +329,54 @@ pub fn compare(f: &[u8], zl: bool, must_accept: bool) -> Result<Outcome, Viol> {
                 out::count("library_more_lenient_than_reference", 1);
             }
         }
-        return Ok(Outcome::Accepted { headers: lh.len(), objects: 0, measurements: 0 });
+        return Ok(Outcome::Accepted {
+            headers: lh.len(),
+            objects: 0,
+            measurements: 0,
+        });
     }
     if lh.len() != w.headers.len() {
-        return Err(("header_count".into(), "count".into(), format!("{} headers parsed, reference finds {}", lh.len(), w.headers.len())));
+        return Err((
+            "header_count".into(),
+            "count".into(),
+            format!(
+                "{} headers parsed, reference finds {}",
+                lh.len(),
+                w.headers.len()
+            ),
+        ));
     }
     let mut nobj = 0usize;
     for (l, r) in lh.iter().zip(w.headers.iter()) {
         let sig = format!("g{}v{}q{:02x}", r.group, r.var, r.qual);
         if (l.g, l.v, l.q) != (r.group, r.var, r.qual) {
-            return Err(("header_identity".into(), sig, format!("header parsed as g{}v{} q{:02x}", l.g, l.v, l.q)));
+            return Err((
+                "header_identity".into(),
+                sig,
+                format!("header parsed as g{}v{} q{:02x}", l.g, l.v, l.q),
+            ));
         }
         match r.qual {
             ra::Q_RANGE8 | ra::Q_RANGE16 => {
                 if (l.start, l.stop) != (r.start, r.stop) {
-                    return Err(("header_range".into(), sig, format!("range parsed as [{}, {}], encoded [{}, {}]", l.start, l.stop, r.start, r.stop)));
+                    return Err((
+                        "header_range".into(),
+                        sig,
+                        format!(
+                            "range parsed as [{}, {}], encoded [{}, {}]",
+                            l.start, l.stop, r.start, r.stop
+                        ),
+                    ));
                 }
             }
             ra::Q_ALL => {}
             _ => {
                 if l.count != r.count {
-                    return Err(("header_count_field".into(), sig, format!("count parsed as {}, encoded {}", l.count, r.count)));
+                    return Err((
+                        "header_count_field".into(),
+                        sig,
+                        format!("count parsed as {}, encoded {}", l.count, r.count),
+                    ));
                 }
             }
         }
@@ -259,11 +401,22 @@ pub fn compare(f: &[u8], zl: bool, must_accept: bool) -> Result<Outcome, Viol> {
         let indexed: Vec<u32> = r.objs.iter().filter_map(|o| o.index).collect();
         if !indexed.is_empty() || (want == 0 && l.indices.is_empty()) {
             if l.indices != indexed {
-                let rule = if l.indices.len() != indexed.len() { "iteration_count" } else { "iteration_index" };
+                let rule = if l.indices.len() != indexed.len() {
+                    "iteration_count"
+                } else {
+                    "iteration_index"
+                };
                 return Err((rule.into(), sig, format!("iterating yields {} objects with indices {:?}..., the header declares {} with indices {:?}...", l.indices.len(), &l.indices[..l.indices.len().min(6)], indexed.len(), &indexed[..indexed.len().min(6)])));
             }
         } else if l.items != want && !(r.group == 0) {
-            return Err(("iteration_count".into(), sig, format!("iterating yields {} objects, the header declares {want}", l.items)));
+            return Err((
+                "iteration_count".into(),
+                sig,
+                format!(
+                    "iterating yields {} objects, the header declares {want}",
+                    l.items
+                ),
+            ));
         }
         nobj += want;
     }
@@ -275,13 +428,21 @@ pub fn compare(f: &[u8], zl: bool, must_accept: bool) -> Result<Outcome, Viol> {
             if let Ok(objs) = p.objects {
                 crate::master::extract::extract_measurements_inner(objs, &mut rec);
             }
-            let recs: Vec<Rec> = rec.take().into_iter().filter_map(|i| if let Item::M(r) = i { Some(r) } else { None }).collect();
+            let recs: Vec<Rec> = rec
+                .take()
+                .into_iter()
+                .filter_map(|i| if let Item::M(r) = i { Some(r) } else { None })
+                .collect();
             // a common-time header with other than one object: which one applies is not defined
             let times_defined = !w.headers.iter().any(|h| h.group == 51 && h.count != 1);
             nmeas = compare_measurements(&recs, &meas, times_defined)?;
         }
     }
-    Ok(Outcome::Accepted { headers: lh.len(), objects: nobj, measurements: nmeas })
+    Ok(Outcome::Accepted {
+        headers: lh.len(),
+        objects: nobj,
+        measurements: nmeas,
+    })
 }
 
 fn report(a: &ShardArgs, part: &str, idx: u64, v: &Viol, f: &[u8], extra: &[String]) {
@@ -289,8 +450,22 @@ fn report(a: &ShardArgs, part: &str, idx: u64, v: &Viol, f: &[u8], extra: &[Stri
         P,
         &format!("C09.{}", v.0),
         &format!("{part}|{}", v.1),
-        J::obj(vec![("why", J::s(v.2.clone())), ("fragment", J::hex(&f[..f.len().min(600)])), ("context", J::arr(extra.iter().rev().take(12).rev().cloned()))]),
-        J::obj(vec![("check", J::s("c09")), ("seed", J::U(a.seed)), ("shard", J::U(a.shard)), ("nshards", J::U(a.nshards)), ("scenario", J::U(idx)), ("part", J::s(part))]),
+        J::obj(vec![
+            ("why", J::s(v.2.clone())),
+            ("fragment", J::hex(&f[..f.len().min(600)])),
+            (
+                "context",
+                J::arr(extra.iter().rev().take(12).rev().cloned()),
+            ),
+        ]),
+        J::obj(vec![
+            ("check", J::s("c09")),
+            ("seed", J::U(a.seed)),
+            ("shard", J::U(a.shard)),
+            ("nshards", J::U(a.nshards)),
+            ("scenario", J::U(idx)),
+            ("part", J::s(part)),
+        ]),
     );
 }
 
@@ -298,7 +473,11 @@ fn tally(part: &str, o: &Outcome) {
     match o {
         Outcome::HeaderRejected => out::count(&format!("{part}_header_rejected"), 1),
         Outcome::ObjectsRejected => out::count(&format!("{part}_objects_rejected"), 1),
-        Outcome::Accepted { headers, objects, measurements } => {
+        Outcome::Accepted {
+            headers,
+            objects,
+            measurements,
+        } => {
             out::count(&format!("{part}_fragments_agree"), 1);
             out::count(&format!("{part}_headers_agree"), *headers as u64);
             out::count(&format!("{part}_objects_agree"), *objects as u64);
@@ -313,7 +492,9 @@ fn file_fragment(r: &mut Rng) -> Vec<u8> {
     let mut body: Vec<u8> = vec![];
     if v == 7 {
         // file descriptor: name offset (always 20), name length, type, size, time of creation, permissions, request id, name
-        let name: Vec<u8> = (0..r.range(0, 12)).map(|_| b'a' + r.below(26) as u8).collect();
+        let name: Vec<u8> = (0..r.range(0, 12))
+            .map(|_| b'a' + r.below(26) as u8)
+            .collect();
         body.extend_from_slice(&20u16.to_le_bytes());
         body.extend_from_slice(&(name.len() as u16).to_le_bytes());
         body.extend_from_slice(&(r.below(2) as u16).to_le_bytes());
@@ -354,7 +535,13 @@ fn file_fragment(r: &mut Rng) -> Vec<u8> {
         1 => (body.len() as u16).saturating_sub(1),
         _ => body.len() as u16,
     };
-    let (ctrl, func) = *r.pick(&[(0xC3u8, ra::F_RESPONSE), (0xC3, 25), (0xC3, ra::F_WRITE), (0xC3, ra::F_READ), (0xC3, 26)]);
+    let (ctrl, func) = *r.pick(&[
+        (0xC3u8, ra::F_RESPONSE),
+        (0xC3, 25),
+        (0xC3, ra::F_WRITE),
+        (0xC3, ra::F_READ),
+        (0xC3, 26),
+    ]);
     let mut f = vec![ctrl, func];
     if func == ra::F_RESPONSE {
         f.extend_from_slice(&[0, 0]);
@@ -381,7 +568,11 @@ fn strictness(a: &ShardArgs) {
         if f.len() < 2 {
             continue;
         }
-        let f = if i % 16 == 5 { file_fragment(&mut rr) } else { f };
+        let f = if i % 16 == 5 {
+            file_fragment(&mut rr)
+        } else {
+            f
+        };
         out::eval(1);
         for zl in [false, true] {
             match compare(&f, zl, false) {
@@ -433,7 +624,11 @@ async fn master_requests(a: &ShardArgs, idx: u64) {
     let mut r = a.rng(&format!("c09/m/{idx}"));
     let mut mc = MasterCfg::default();
     mc.tx = *r.pick(&[249usize, 2048]);
-    let mut ac = if r.bool() { AssocCfg::default_like(1024) } else { AssocCfg::quiet(1024) };
+    let mut ac = if r.bool() {
+        AssocCfg::default_like(1024)
+    } else {
+        AssocCfg::quiet(1024)
+    };
     ac.response_timeout_ms = 100;
     ac.auto_time_sync = *r.pick(&[None, Some(0u8), Some(1), Some(2)]);
     let mut sim = MasterSim::start(mc, &[ac]).await;
@@ -450,7 +645,10 @@ async fn master_requests(a: &ShardArgs, idx: u64) {
                 for _ in 0..r.range(1, 6) {
                     let (g, v) = *r.pick(&vars);
                     // octet strings are read with variation 0; dead-band reads use a concrete variation
-                    if matches!(g, 70 | 0) || (matches!(g, 110 | 111) && v != 0) || (g == 34 && v == 0) {
+                    if matches!(g, 70 | 0)
+                        || (matches!(g, 110 | 111) && v != 0)
+                        || (g == 34 && v == 0)
+                    {
                         continue;
                     }
                     // supported combinations: limited counts for events and class objects, ranges for static objects
@@ -492,19 +690,43 @@ async fn master_requests(a: &ShardArgs, idx: u64) {
             3 if sim.cfg.tx == 2048 && r.chance(1, 4) => {
                 // one header with a large count (16-bit count beyond 255, 8-bit count at its limit)
                 let wide = r.bool();
-                let n = if wide { r.range(200, 300) } else { r.range(250, 255) };
+                let n = if wide {
+                    r.range(200, 300)
+                } else {
+                    r.range(250, 255)
+                };
                 let kind = *r.pick(&[2u8, 1]);
-                let objs: Vec<(u8, u16, bool, u32)> = (0..n).map(|k| (kind, if wide { 1000 + k as u16 } else { k as u16 }, wide, r.u64() as u32)).collect();
+                let objs: Vec<(u8, u16, bool, u32)> = (0..n)
+                    .map(|k| {
+                        (
+                            kind,
+                            if wide { 1000 + k as u16 } else { k as u16 },
+                            wide,
+                            r.u64() as u32,
+                        )
+                    })
+                    .collect();
                 UserReq::Command(false, objs)
             }
             3 | 4 => {
                 let n = r.range(1, 5);
-                let objs: Vec<(u8, u16, bool, u32)> = (0..n).map(|_| (r.below(5) as u8, *r.pick(&[0u16, 1, 255, 256, 65535]), r.bool(), r.u64() as u32)).collect();
+                let objs: Vec<(u8, u16, bool, u32)> = (0..n)
+                    .map(|_| {
+                        (
+                            r.below(5) as u8,
+                            *r.pick(&[0u16, 1, 255, 256, 65535]),
+                            r.bool(),
+                            r.u64() as u32,
+                        )
+                    })
+                    .collect();
                 UserReq::Command(r.bool(), objs)
             }
             5 => UserReq::TimeSync(r.below(3) as u8),
             6 => UserReq::WriteDeadBands((0..r.range(1, 5)).map(|_| (r.u16(), r.u16())).collect()),
-            7 => r.pick(&[UserReq::ColdRestart, UserReq::WarmRestart]).clone(),
+            7 => r
+                .pick(&[UserReq::ColdRestart, UserReq::WarmRestart])
+                .clone(),
             _ => UserReq::EmptyResponse(*r.pick(&[7u8, 8, 9, 10, 20, 21, 22])),
         };
         ctx.push(format!("{req:?}"));
@@ -513,7 +735,10 @@ async fn master_requests(a: &ShardArgs, idx: u64) {
         // take what the master wrote (several steps: each answered with an empty / echo response so that procedures continue)
         for _ in 0..6 {
             let rx = sim.collect();
-            let frags: Vec<Vec<u8>> = rx.iter().filter_map(|x| x.fragment().map(|f| f.to_vec())).collect();
+            let frags: Vec<Vec<u8>> = rx
+                .iter()
+                .filter_map(|x| x.fragment().map(|f| f.to_vec()))
+                .collect();
             if frags.is_empty() {
                 break;
             }
@@ -534,7 +759,9 @@ async fn master_requests(a: &ShardArgs, idx: u64) {
                             .headers
                             .iter()
                             .map(|h| match h.qual {
-                                ra::Q_RANGE8 | ra::Q_RANGE16 => (h.group, h.var, h.qual, h.start, h.stop),
+                                ra::Q_RANGE8 | ra::Q_RANGE16 => {
+                                    (h.group, h.var, h.qual, h.start, h.stop)
+                                }
                                 ra::Q_ALL => (h.group, h.var, h.qual, 0, 0),
                                 _ => (h.group, h.var, h.qual, h.count, 0),
                             })
@@ -551,9 +778,19 @@ async fn master_requests(a: &ShardArgs, idx: u64) {
                 let seq = f[0] & 15;
                 let rsp = match f[1] {
                     ra::F_CONFIRM => continue,
-                    ra::F_SELECT | ra::F_OPERATE | ra::F_DIRECT_OPERATE => ra::B::response(ra::FIR | ra::FIN | seq, false, 0, 0).raw(&f[2..]).done(),
-                    ra::F_DELAY_MEASURE => ra::B::response(ra::FIR | ra::FIN | seq, false, 0, 0).count8(52, 2, 1, &[0, 0]).done(),
-                    ra::F_COLD_RESTART | ra::F_WARM_RESTART => ra::B::response(ra::FIR | ra::FIN | seq, false, 0, 0).count8(52, 2, 1, &[5, 0]).done(),
+                    ra::F_SELECT | ra::F_OPERATE | ra::F_DIRECT_OPERATE => {
+                        ra::B::response(ra::FIR | ra::FIN | seq, false, 0, 0)
+                            .raw(&f[2..])
+                            .done()
+                    }
+                    ra::F_DELAY_MEASURE => ra::B::response(ra::FIR | ra::FIN | seq, false, 0, 0)
+                        .count8(52, 2, 1, &[0, 0])
+                        .done(),
+                    ra::F_COLD_RESTART | ra::F_WARM_RESTART => {
+                        ra::B::response(ra::FIR | ra::FIN | seq, false, 0, 0)
+                            .count8(52, 2, 1, &[5, 0])
+                            .done()
+                    }
                     _ => ra::B::response(ra::FIR | ra::FIN | seq, false, 0, 0).done(),
                 };
                 sim.send_from(1024, &rsp);
@@ -579,9 +816,19 @@ async fn outstation_responses(a: &ShardArgs, idx: u64) {
         let dense = r.bool() || t < 3;
         let mut next = *r.pick(&[0u16, 250, 65500]);
         // packed formats: runs whose length is and is not a multiple of 4 and 8
-        let n = if t < 3 { *r.pick(&[1u64, 3, 4, 5, 8, 9, 16]) } else { r.range(1, 6) };
+        let n = if t < 3 {
+            *r.pick(&[1u64, 3, 4, 5, 8, 9, 16])
+        } else {
+            r.range(1, 6)
+        };
         for _ in 0..n {
-            layout.push((t, next, *r.pick(vals::svars(t)), *r.pick(vals::evars(t)), 1 + r.below(3) as u8));
+            layout.push((
+                t,
+                next,
+                *r.pick(vals::svars(t)),
+                *r.pick(vals::evars(t)),
+                1 + r.below(3) as u8,
+            ));
             next = next.saturating_add(if dense { 1 } else { r.range(1, 9) as u16 });
             if next == 65535 {
                 break;
@@ -593,7 +840,20 @@ async fn outstation_responses(a: &ShardArgs, idx: u64) {
     let l2 = layout.clone();
     let mut sim = OutSim::start_with(oc.clone(), |db| {
         for (t, i, sv, ev, c) in &l2 {
-            vals::add(db, *t, *i, *sv, *ev, Some([crate::outstation::database::EventClass::Class1, crate::outstation::database::EventClass::Class2, crate::outstation::database::EventClass::Class3][(*c - 1) as usize]));
+            vals::add(
+                db,
+                *t,
+                *i,
+                *sv,
+                *ev,
+                Some(
+                    [
+                        crate::outstation::database::EventClass::Class1,
+                        crate::outstation::database::EventClass::Class2,
+                        crate::outstation::database::EventClass::Class3,
+                    ][(*c - 1) as usize],
+                ),
+            );
         }
     })
     .await;
@@ -616,7 +876,10 @@ async fn outstation_responses(a: &ShardArgs, idx: u64) {
         }
     }
     let check = |a: &ShardArgs, r: &mut Rng, ctx: &Vec<String>, rx: &[Rx]| -> Vec<Vec<u8>> {
-        let frags: Vec<Vec<u8>> = rx.iter().filter_map(|x| x.fragment().map(|f| f.to_vec())).collect();
+        let frags: Vec<Vec<u8>> = rx
+            .iter()
+            .filter_map(|x| x.fragment().map(|f| f.to_vec()))
+            .collect();
         for f in &frags {
             out::eval(1);
             match compare(f, true, true) {
@@ -649,26 +912,42 @@ async fn outstation_responses(a: &ShardArgs, idx: u64) {
         // a request
         seq = (seq + 1) & 15;
         let rq = match r.below(8) {
-            0 => ra::B::request(ra::F_READ, seq).all(60, 2).all(60, 3).all(60, 4).all(60, 1).done(),
+            0 => ra::B::request(ra::F_READ, seq)
+                .all(60, 2)
+                .all(60, 3)
+                .all(60, 4)
+                .all(60, 1)
+                .done(),
             1 => ra::B::request(ra::F_READ, seq).all(60, 1).done(),
             2 => {
                 let t = r.usize_below(7);
-                ra::B::request(ra::F_READ, seq).all(vals::STATIC_GROUP[t], *r.pick(vals::svars(t))).done()
+                ra::B::request(ra::F_READ, seq)
+                    .all(vals::STATIC_GROUP[t], *r.pick(vals::svars(t)))
+                    .done()
             }
             3 => {
                 let t = r.usize_below(7);
-                ra::B::request(ra::F_READ, seq).all(vals::EVENT_GROUP[t], *r.pick(vals::evars(t))).done()
+                ra::B::request(ra::F_READ, seq)
+                    .all(vals::EVENT_GROUP[t], *r.pick(vals::evars(t)))
+                    .done()
             }
             4 => {
                 let t = r.usize_below(7);
-                ra::B::request(ra::F_READ, seq).range16(vals::STATIC_GROUP[t], 0, 0, 65535, &[]).done()
+                ra::B::request(ra::F_READ, seq)
+                    .range16(vals::STATIC_GROUP[t], 0, 0, 65535, &[])
+                    .done()
             }
-            5 => ra::B::request(*r.pick(&[ra::F_SELECT, ra::F_DIRECT_OPERATE]), seq).raw(&{
-                let n = r.range(1, 4) as usize;
-                crate::verif::gen::control_objects(&mut r, n)
-            }).done(),
+            5 => ra::B::request(*r.pick(&[ra::F_SELECT, ra::F_DIRECT_OPERATE]), seq)
+                .raw(&{
+                    let n = r.range(1, 4) as usize;
+                    crate::verif::gen::control_objects(&mut r, n)
+                })
+                .done(),
             6 => ra::B::request(ra::F_DELAY_MEASURE, seq).done(),
-            _ => ra::B::request(ra::F_READ, seq).count8(60, 2, r.below(4) as u8, &[]).all(60, 3).done(),
+            _ => ra::B::request(ra::F_READ, seq)
+                .count8(60, 2, r.below(4) as u8, &[])
+                .all(60, 3)
+                .done(),
         };
         ctx.push(format!("request {}", hex(&rq[..rq.len().min(40)])));
         sim.send(&rq);
@@ -708,9 +987,26 @@ enum AV {
 impl AV {
     fn random(r: &mut Rng) -> AV {
         match r.below(8) {
-            0 => AV::Str((0..*r.pick(&[0usize, 1, 7, 60, 255])).map(|_| (b'a' + r.below(26) as u8) as char).collect()),
+            0 => AV::Str(
+                (0..*r.pick(&[0usize, 1, 7, 60, 255]))
+                    .map(|_| (b'a' + r.below(26) as u8) as char)
+                    .collect(),
+            ),
             1 => AV::UInt(*r.pick(&[0u32, 1, 255, 256, 65535, 65536, u32::MAX, 0x0100_0000])),
-            2 => AV::Int(*r.pick(&[0i32, -1, 127, 128, -128, -129, 32767, 32768, -32768, -32769, i32::MAX, i32::MIN])),
+            2 => AV::Int(*r.pick(&[
+                0i32,
+                -1,
+                127,
+                128,
+                -128,
+                -129,
+                32767,
+                32768,
+                -32768,
+                -32769,
+                i32::MAX,
+                i32::MIN,
+            ])),
             3 => AV::F32(*r.pick(&[0.0f32, -1.5, f32::MAX, f32::MIN_POSITIVE, 3.25])),
             4 => AV::F64(*r.pick(&[0.0f64, -1.5, f64::MAX, 1e-300, 2.5])),
             5 => AV::Octets({
@@ -757,15 +1053,26 @@ impl AV {
         match self {
             AV::Str(s) => v == s.as_bytes(),
             AV::Octets(b) | AV::Bits(b) => v == b.as_slice(),
-            AV::UInt(x) => matches!(v.len(), 1 | 2 | 4) && v.iter().rev().fold(0u64, |a, b| a << 8 | *b as u64) == *x as u64,
+            AV::UInt(x) => {
+                matches!(v.len(), 1 | 2 | 4)
+                    && v.iter().rev().fold(0u64, |a, b| a << 8 | *b as u64) == *x as u64
+            }
             AV::Int(x) => match v.len() {
                 1 => v[0] as i8 as i32 == *x,
                 2 => i16::from_le_bytes([v[0], v[1]]) as i32 == *x,
                 4 => i32::from_le_bytes([v[0], v[1], v[2], v[3]]) == *x,
                 _ => false,
             },
-            AV::F32(x) => v.len() == 4 && f32::from_le_bytes([v[0], v[1], v[2], v[3]]).to_bits() == x.to_bits(),
-            AV::F64(x) => v.len() == 8 && f64::from_le_bytes([v[0], v[1], v[2], v[3], v[4], v[5], v[6], v[7]]).to_bits() == x.to_bits(),
+            AV::F32(x) => {
+                v.len() == 4
+                    && f32::from_le_bytes([v[0], v[1], v[2], v[3]]).to_bits() == x.to_bits()
+            }
+            AV::F64(x) => {
+                v.len() == 8
+                    && f64::from_le_bytes([v[0], v[1], v[2], v[3], v[4], v[5], v[6], v[7]])
+                        .to_bits()
+                        == x.to_bits()
+            }
             AV::Time(t) => v.len() == 6 && ra::rd48(v) == *t,
         }
     }
@@ -808,7 +1115,8 @@ async fn attributes(a: &ShardArgs, idx: u64) {
     for _ in 0..r.range(1, 10) {
         let set = *r.pick(&[1u8, 2, 200, 255]);
         let var = *r.pick(&[1u8, 2, 100, 200, 253]);
-        defs.entry((set, var)).or_insert((AV::random(&mut r), r.bool()));
+        defs.entry((set, var))
+            .or_insert((AV::random(&mut r), r.bool()));
     }
     // members of the default set: (variation, kind s|u|b|f|t|o, name of the attribute in IEEE 1815 table order)
     const DEFAULT_SET: [(u8, char, &str); 57] = [
@@ -874,7 +1182,11 @@ async fn attributes(a: &ShardArgs, idx: u64) {
     for _ in 0..r.range(2, 9) {
         let (var, kind, name) = *r.pick(&DEFAULT_SET[..56]);
         let v = match kind {
-            's' => AV::Str((0..r.range(0, 12)).map(|_| (b'a' + r.below(26) as u8) as char).collect()),
+            's' => AV::Str(
+                (0..r.range(0, 12))
+                    .map(|_| (b'a' + r.below(26) as u8) as char)
+                    .collect(),
+            ),
             'u' => AV::UInt(*r.pick(&[0u32, 1, 255, 256, 65535, 65536, u32::MAX])),
             'b' => AV::Int(r.below(2) as i32),
             'f' => {
@@ -899,8 +1211,15 @@ async fn attributes(a: &ShardArgs, idx: u64) {
     let mut def_errors: Vec<String> = vec![];
     let mut sim = OutSim::start_with(oc.clone(), |db| {
         for ((set, var), (v, w)) in &d2 {
-            let prop = if *w { AttrProp::writable() } else { AttrProp::default() };
-            if let Err(e) = db.define_attr(prop, OwnedAttribute::new(AttrSet::new(*set), *var, v.owned())) {
+            let prop = if *w {
+                AttrProp::writable()
+            } else {
+                AttrProp::default()
+            };
+            if let Err(e) = db.define_attr(
+                prop,
+                OwnedAttribute::new(AttrSet::new(*set), *var, v.owned()),
+            ) {
                 def_errors.push(format!("({set},{var}) {v:?}: {e:?}"));
             }
         }
@@ -908,7 +1227,18 @@ async fn attributes(a: &ShardArgs, idx: u64) {
     .await;
     let mut ctx: Vec<String> = vec![format!("defined {defs:?}")];
     if !def_errors.is_empty() {
-        report(a, "A3", idx, &("attribute_definition_refused".into(), "define".into(), format!("define_attr refused: {def_errors:?}")), &[], &ctx);
+        report(
+            a,
+            "A3",
+            idx,
+            &(
+                "attribute_definition_refused".into(),
+                "define".into(),
+                format!("define_attr refused: {def_errors:?}"),
+            ),
+            &[],
+            &ctx,
+        );
         return;
     }
     let mut seq = r.below(16) as u8;
@@ -917,7 +1247,10 @@ async fn attributes(a: &ShardArgs, idx: u64) {
         let mut all: Vec<Vec<u8>> = vec![];
         let mut rx = sim.request(rq).await;
         for _ in 0..12 {
-            let frags: Vec<Vec<u8>> = rx.iter().filter_map(|x| x.fragment().map(|f| f.to_vec())).collect();
+            let frags: Vec<Vec<u8>> = rx
+                .iter()
+                .filter_map(|x| x.fragment().map(|f| f.to_vec()))
+                .collect();
             if frags.is_empty() {
                 break;
             }
@@ -925,18 +1258,30 @@ async fn attributes(a: &ShardArgs, idx: u64) {
             all.extend(frags);
             if last[0] & ra::CON == 0 || last[0] & ra::FIN != 0 {
                 if last[0] & ra::CON != 0 {
-                    let _ = sim.request(&ra::B::confirm(last[0] & 15, false).done()).await;
+                    let _ = sim
+                        .request(&ra::B::confirm(last[0] & 15, false).done())
+                        .await;
                 }
                 break;
             }
-            rx = sim.request(&ra::B::confirm(last[0] & 15, false).done()).await;
+            rx = sim
+                .request(&ra::B::confirm(last[0] & 15, false).done())
+                .await;
         }
         all
     }
     // decode the attribute objects of a response: (set, variation, object bytes)
     let decode = |f: &[u8]| -> Vec<(u8, u8, Vec<u8>)> {
         let w = ra::walk(ra::F_RESPONSE, &f[4..], true);
-        w.headers.iter().filter(|h| h.group == 0).flat_map(|h| h.objs.iter().map(move |o| (h.start as u8, h.var, o.bytes.clone()))).collect()
+        w.headers
+            .iter()
+            .filter(|h| h.group == 0)
+            .flat_map(|h| {
+                h.objs
+                    .iter()
+                    .map(move |o| (h.start as u8, h.var, o.bytes.clone()))
+            })
+            .collect()
     };
     // an attribute object (5 header octets + type + length + value) that does not fit an empty fragment cannot be reported at all
     let tx = oc.sol_tx;
@@ -948,7 +1293,9 @@ async fn attributes(a: &ShardArgs, idx: u64) {
         match r.below(5) {
             4 => {
                 // list of the attribute variations of a set (variation 255): pairs (variation, properties), bit 0 = writable
-                let rq = ra::B::request(ra::F_READ, seq).range8(0, 255, set, set, &[]).done();
+                let rq = ra::B::request(ra::F_READ, seq)
+                    .range8(0, 255, set, set, &[])
+                    .done();
                 ctx.push(format!("READ g0v255 set {set}"));
                 let frags = exchange(&mut sim, &rq).await;
                 out::eval(1);
@@ -963,7 +1310,13 @@ async fn attributes(a: &ShardArgs, idx: u64) {
                     want.push(k.1);
                     want.push(v.1 as u8);
                 }
-                let ok = got.len() == 1 && got[0].0 == set && got[0].1 == 255 && got[0].2.len() >= 2 && got[0].2[0] == 254 && got[0].2[1] as usize == want.len() && got[0].2[2..] == want[..];
+                let ok = got.len() == 1
+                    && got[0].0 == set
+                    && got[0].1 == 255
+                    && got[0].2.len() >= 2
+                    && got[0].2[0] == 254
+                    && got[0].2[1] as usize == want.len()
+                    && got[0].2[2..] == want[..];
                 if !ok {
                     report(a, "A3", idx, &("attribute_variation_list".into(), "v255".into(), format!("set {set} defines (variation, writable) {want:?}; the list read returned {got:?}")), frags.first().map(|f| f.as_slice()).unwrap_or(&[]), &ctx);
                 } else {
@@ -972,12 +1325,25 @@ async fn attributes(a: &ShardArgs, idx: u64) {
             }
             0 | 1 => {
                 // read one attribute
-                let rq = ra::B::request(ra::F_READ, seq).range8(0, var, set, set, &[]).done();
+                let rq = ra::B::request(ra::F_READ, seq)
+                    .range8(0, var, set, set, &[])
+                    .done();
                 ctx.push(format!("READ g0v{var} set {set}"));
                 let frags = exchange(&mut sim, &rq).await;
                 out::eval(1);
                 let Some(f) = frags.first() else {
-                    report(a, "A3", idx, &("attribute_no_reply".into(), "read".into(), "no response to an attribute read".into()), &rq, &ctx);
+                    report(
+                        a,
+                        "A3",
+                        idx,
+                        &(
+                            "attribute_no_reply".into(),
+                            "read".into(),
+                            "no response to an attribute read".into(),
+                        ),
+                        &rq,
+                        &ctx,
+                    );
                     continue;
                 };
                 if let Err(v) = compare(f, false, true) {
@@ -996,29 +1362,95 @@ async fn attributes(a: &ShardArgs, idx: u64) {
                     }
                     continue;
                 }
-                if got.len() != 1 || got[0].0 != set || got[0].1 != var || !want.carried_by(&got[0].2) {
-                    report(a, "A3", idx, &("attribute_encoding".into(), format!("code{}", want.code()), format!("attribute ({set},{var}) = {want:?} is reported as {got:?}")), f, &ctx);
+                if got.len() != 1
+                    || got[0].0 != set
+                    || got[0].1 != var
+                    || !want.carried_by(&got[0].2)
+                {
+                    report(
+                        a,
+                        "A3",
+                        idx,
+                        &(
+                            "attribute_encoding".into(),
+                            format!("code{}", want.code()),
+                            format!("attribute ({set},{var}) = {want:?} is reported as {got:?}"),
+                        ),
+                        f,
+                        &ctx,
+                    );
                 } else {
                     out::count("A3_attribute_read_ok", 1);
                     out::count(&format!("A3_read_ok_code{}", want.code()), 1);
                 }
                 // and what the master's handler is given
                 let mut rec = Recorder::new();
-                if let Ok(p) = ParsedFragment::parse(ParseOptions { parse_zero_length_strings: false }, f) {
+                if let Ok(p) = ParsedFragment::parse(
+                    ParseOptions {
+                        parse_zero_length_strings: false,
+                    },
+                    f,
+                ) {
                     if let Ok(objs) = p.objects {
                         crate::master::extract::extract_measurements_inner(objs, &mut rec);
                     }
                 }
-                let attrs: Vec<String> = rec.take().into_iter().filter_map(|i| if let Item::Attr(s) = i { Some(s) } else { None }).collect();
+                let attrs: Vec<String> = rec
+                    .take()
+                    .into_iter()
+                    .filter_map(|i| if let Item::Attr(s) = i { Some(s) } else { None })
+                    .collect();
                 // members of the default set reach the handler under their own name (booleans as true / false)
-                let name_ok = set != 0 || names.get(&var).map(|n| attrs.first().map(|a| a.contains(&format!("{n}, ")) || a.contains(&format!("{n})")) || a.contains(&format!("({n},"))).unwrap_or(false)).unwrap_or(true);
+                let name_ok = set != 0
+                    || names
+                        .get(&var)
+                        .map(|n| {
+                            attrs
+                                .first()
+                                .map(|a| {
+                                    a.contains(&format!("{n}, "))
+                                        || a.contains(&format!("{n})"))
+                                        || a.contains(&format!("({n},"))
+                                })
+                                .unwrap_or(false)
+                        })
+                        .unwrap_or(true);
                 let is_bool = set == 0 && DEFAULT_SET.iter().any(|d| d.0 == var && d.1 == 'b');
-                let num_ok = |x: String| attrs.first().map(|a| a.contains(&format!("({x})")) || a.contains(&format!(", {x})"))).unwrap_or(false);
+                let num_ok = |x: String| {
+                    attrs
+                        .first()
+                        .map(|a| a.contains(&format!("({x})")) || a.contains(&format!(", {x})")))
+                        .unwrap_or(false)
+                };
                 let value_ok = if let AV::UInt(x) = want {
                     num_ok(x.to_string())
-                } else if is_bool { attrs.first().map(|a| a.contains(if *want == AV::Int(1) { "true" } else { "false" })).unwrap_or(false) } else { attrs.first().map(|a| a.contains(&want.debug_needle())).unwrap_or(false) };
+                } else if is_bool {
+                    attrs
+                        .first()
+                        .map(|a| a.contains(if *want == AV::Int(1) { "true" } else { "false" }))
+                        .unwrap_or(false)
+                } else {
+                    attrs
+                        .first()
+                        .map(|a| a.contains(&want.debug_needle()))
+                        .unwrap_or(false)
+                };
                 if attrs.len() == 1 && set == 0 && !name_ok {
-                    report(a, "A3", idx, &("attribute_name".into(), format!("v{var}"), format!("default-set attribute {var} ({}) reaches the handler as {attrs:?}", names.get(&var).copied().unwrap_or("?"))), f, &ctx);
+                    report(
+                        a,
+                        "A3",
+                        idx,
+                        &(
+                            "attribute_name".into(),
+                            format!("v{var}"),
+                            format!(
+                                "default-set attribute {var} ({}) reaches the handler as {attrs:?}",
+                                names.get(&var).copied().unwrap_or("?")
+                            ),
+                        ),
+                        f,
+                        &ctx,
+                    );
                 } else if set == 0 && names.contains_key(&var) {
                     out::count("A3_default_set_attribute_named_ok", 1);
                 }
@@ -1030,7 +1462,9 @@ async fn attributes(a: &ShardArgs, idx: u64) {
             }
             2 => {
                 // all attributes of a set (variation 254)
-                let rq = ra::B::request(ra::F_READ, seq).range8(0, 254, set, set, &[]).done();
+                let rq = ra::B::request(ra::F_READ, seq)
+                    .range8(0, 254, set, set, &[])
+                    .done();
                 ctx.push(format!("READ g0v254 set {set}"));
                 let frags = exchange(&mut sim, &rq).await;
                 if frags.len() >= 12 {
@@ -1044,9 +1478,16 @@ async fn attributes(a: &ShardArgs, idx: u64) {
                     }
                     got.extend(decode(f));
                 }
-                let want: Vec<(u8, &AV)> = defs.iter().filter(|(k, v)| k.0 == set && fits(&v.0)).map(|(k, v)| (k.1, &v.0)).collect();
+                let want: Vec<(u8, &AV)> = defs
+                    .iter()
+                    .filter(|(k, v)| k.0 == set && fits(&v.0))
+                    .map(|(k, v)| (k.1, &v.0))
+                    .collect();
                 let complete = frags.last().map(|f| f[0] & ra::FIN != 0).unwrap_or(false);
-                let ok = got.iter().all(|g| g.0 == set && want.iter().any(|w| w.0 == g.1 && w.1.carried_by(&g.2))) && (!complete || got.len() == want.len());
+                let ok = got
+                    .iter()
+                    .all(|g| g.0 == set && want.iter().any(|w| w.0 == g.1 && w.1.carried_by(&g.2)))
+                    && (!complete || got.len() == want.len());
                 if !ok {
                     report(a, "A3", idx, &("attribute_set_read".into(), "v254".into(), format!("set {set} holds {want:?}; the read of all attributes returned {got:?}")), frags.first().map(|f| f.as_slice()).unwrap_or(&[]), &ctx);
                 } else {
@@ -1067,22 +1508,50 @@ async fn attributes(a: &ShardArgs, idx: u64) {
                 let app_ok = r.chance(3, 4);
                 sim.mock.script(|s| s.attr_ok = app_ok);
                 let _ = sim.mock.take();
-                let rq = ra::B::request(ra::F_WRITE, seq).range8(0, var, set, set, &newv.encode()).done();
+                let rq = ra::B::request(ra::F_WRITE, seq)
+                    .range8(0, var, set, set, &newv.encode())
+                    .done();
                 ctx.push(format!("WRITE g0v{var} set {set} = {newv:?} (writable={writable}, application accepts={app_ok})"));
                 let rx = sim.request(&rq).await;
-                let frags: Vec<Vec<u8>> = rx.iter().filter_map(|x| x.fragment().map(|f| f.to_vec())).collect();
+                let frags: Vec<Vec<u8>> = rx
+                    .iter()
+                    .filter_map(|x| x.fragment().map(|f| f.to_vec()))
+                    .collect();
                 out::eval(1);
                 let Some(f) = frags.first() else {
-                    report(a, "A3", idx, &("attribute_no_reply".into(), "write".into(), "no response to an attribute write".into()), &rq, &ctx);
+                    report(
+                        a,
+                        "A3",
+                        idx,
+                        &(
+                            "attribute_no_reply".into(),
+                            "write".into(),
+                            "no response to an attribute write".into(),
+                        ),
+                        &rq,
+                        &ctx,
+                    );
                     continue;
                 };
                 let accepted = f.len() >= 4 && f[3] & ra::IIN2_ERRORS == 0;
-                let asked: usize = sim.mock.take().iter().filter(|(_, e)| matches!(e, Ev::WriteDeviceAttr(_))).count();
+                let asked: usize = sim
+                    .mock
+                    .take()
+                    .iter()
+                    .filter(|(_, e)| matches!(e, Ev::WriteDeviceAttr(_)))
+                    .count();
                 let must_accept = writable && newv.code() == old.code() && app_ok;
                 if accepted != must_accept {
                     report(a, "A3", idx, &("attribute_write_verdict".into(), format!("accepted{}", accepted as u8), format!("write of {newv:?} over {old:?} (writable={writable}, application accepts={app_ok}) answered with IIN2 {:02x}", f.get(3).copied().unwrap_or(0))), f, &ctx);
                 } else {
-                    out::count(if accepted { "A3_attribute_write_accepted_ok" } else { "A3_attribute_write_rejected_ok" }, 1);
+                    out::count(
+                        if accepted {
+                            "A3_attribute_write_accepted_ok"
+                        } else {
+                            "A3_attribute_write_rejected_ok"
+                        },
+                        1,
+                    );
                 }
                 if (!writable || newv.code() != old.code()) && asked > 0 {
                     report(a, "A3", idx, &("attribute_write_reached_application".into(), "write".into(), format!("the application was asked to persist a write that cannot be made (writable={writable}, {old:?} <- {newv:?})")), f, &ctx);
@@ -1092,7 +1561,13 @@ async fn attributes(a: &ShardArgs, idx: u64) {
                 }
                 // the value now read is the new one exactly when the write was accepted
                 seq = (seq + 1) & 15;
-                let rx = sim.request(&ra::B::request(ra::F_READ, seq).range8(0, var, set, set, &[]).done()).await;
+                let rx = sim
+                    .request(
+                        &ra::B::request(ra::F_READ, seq)
+                            .range8(0, var, set, set, &[])
+                            .done(),
+                    )
+                    .await;
                 if let Some(f2) = rx.iter().filter_map(|x| x.fragment()).next() {
                     let got = decode(f2);
                     let want = &defs[&(set, var)].0;
@@ -1122,7 +1597,15 @@ async fn dead_bands(a: &ShardArgs, idx: u64) {
     oc.sol_tx = *r.pick(&[249usize, 2048]);
     let o = OutSim::start_with(oc, |db| {
         for i in &pts {
-            db.add(*i, Some(EventClass::Class1), AnalogInputConfig::new(StaticAnalogInputVariation::Group30Var1, EventAnalogInputVariation::Group32Var1, 0.0));
+            db.add(
+                *i,
+                Some(EventClass::Class1),
+                AnalogInputConfig::new(
+                    StaticAnalogInputVariation::Group30Var1,
+                    EventAnalogInputVariation::Group32Var1,
+                    0.0,
+                ),
+            );
         }
     })
     .await;
@@ -1133,14 +1616,19 @@ async fn dead_bands(a: &ShardArgs, idx: u64) {
     pair.run_until(50, |_| false, |_, _| {}).await;
     let mut ctx: Vec<String> = vec![];
     // model of the dead-bands
-    let mut model: std::collections::BTreeMap<u16, f64> = points.iter().map(|i| (*i, 0.0)).collect();
+    let mut model: std::collections::BTreeMap<u16, f64> =
+        points.iter().map(|i| (*i, 0.0)).collect();
     for _ in 0..r.range(2, 6) {
         let var = 1 + r.below(3) as u8;
         let wide = r.bool();
         let n = r.range(1, 4);
         let mut items: Vec<(u16, f64)> = vec![];
         for _ in 0..n {
-            let idx_pool: Vec<u16> = if wide { vec![0, 5, 255, 256, 65535, 7] } else { vec![0, 5, 255, 7] };
+            let idx_pool: Vec<u16> = if wide {
+                vec![0, 5, 255, 256, 65535, 7]
+            } else {
+                vec![0, 5, 255, 7]
+            };
             let i = *r.pick(&idx_pool);
             let v: f64 = match var {
                 1 => *r.pick(&[0.0, 1.0, 65535.0, 1234.0]),
@@ -1151,45 +1639,125 @@ async fn dead_bands(a: &ShardArgs, idx: u64) {
         }
         let all_exist = items.iter().all(|(i, _)| model.contains_key(i));
         let _ = pair.o.mock.take();
-        let id = pair.m.submit(0, UserReq::WriteDeadBandsV(var, wide, items.clone()));
+        let id = pair
+            .m
+            .submit(0, UserReq::WriteDeadBandsV(var, wide, items.clone()));
         settle().await;
         pair.pump();
-        pair.run_until(10_000, |pr| pr.m.result_of(id).is_some() && pr.in_flight.is_empty(), |_, _| {}).await;
+        pair.run_until(
+            10_000,
+            |pr| pr.m.result_of(id).is_some() && pr.in_flight.is_empty(),
+            |_, _| {},
+        )
+        .await;
         let res = pair.m.result_of(id).map(|x| x.3).unwrap_or_default();
-        let calls: Vec<(u16, f64)> = pair.o.mock.take().iter().filter_map(|(_, e)| if let Ev::WriteDeadBand(i, v) = e { Some((*i, *v)) } else { None }).collect();
-        ctx.push(format!("WRITE g34v{var} wide={wide} {items:?} -> {res}; application calls {calls:?}"));
+        let calls: Vec<(u16, f64)> = pair
+            .o
+            .mock
+            .take()
+            .iter()
+            .filter_map(|(_, e)| {
+                if let Ev::WriteDeadBand(i, v) = e {
+                    Some((*i, *v))
+                } else {
+                    None
+                }
+            })
+            .collect();
+        ctx.push(format!(
+            "WRITE g34v{var} wide={wide} {items:?} -> {res}; application calls {calls:?}"
+        ));
         out::eval(1);
         // every existing point named by the request gets its value, in order; the value is the one written (f32 for variation 3)
-        let want: Vec<(u16, f64)> = items.iter().filter(|(i, _)| model.contains_key(i)).map(|(i, v)| (*i, if var == 3 { *v as f32 as f64 } else { *v })).collect();
+        let want: Vec<(u16, f64)> = items
+            .iter()
+            .filter(|(i, _)| model.contains_key(i))
+            .map(|(i, v)| (*i, if var == 3 { *v as f32 as f64 } else { *v }))
+            .collect();
         if calls != want {
             report(a, "A4", idx, &("dead_band_write".into(), format!("g34v{var}"), format!("dead-bands {items:?} (points {points:?}) reached the application as {calls:?}, expected {want:?}")), &[], &ctx);
         } else {
             out::count("A4_dead_band_write_ok", 1);
         }
         if all_exist != res.starts_with("Ok") {
-            report(a, "A4", idx, &("dead_band_write_result".into(), format!("exist{}", all_exist as u8), format!("write_dead_bands returned {res} although all points exist = {all_exist}")), &[], &ctx);
+            report(
+                a,
+                "A4",
+                idx,
+                &(
+                    "dead_band_write_result".into(),
+                    format!("exist{}", all_exist as u8),
+                    format!(
+                        "write_dead_bands returned {res} although all points exist = {all_exist}"
+                    ),
+                ),
+                &[],
+                &ctx,
+            );
         }
         for (i, v) in want {
             model.insert(i, v);
         }
         // read back with a variation that can carry every current value
         let maxv = model.values().cloned().fold(0.0, f64::max);
-        let frac = model.values().any(|v| v.fract() != 0.0 || *v > 4294967295.0);
-        let rv = if frac { 3 } else if maxv > 65535.0 { *r.pick(&[2u8, 2, 3]) } else { 1 + r.below(3) as u8 };
+        let frac = model
+            .values()
+            .any(|v| v.fract() != 0.0 || *v > 4294967295.0);
+        let rv = if frac {
+            3
+        } else if maxv > 65535.0 {
+            *r.pick(&[2u8, 2, 3])
+        } else {
+            1 + r.below(3) as u8
+        };
         if rv == 3 && model.values().any(|v| (*v as f32) as f64 != *v) {
             continue;
         }
         let _ = pair.m.assocs[0].2.take();
-        let id = pair.m.submit(0, UserReq::ReadHeaders(vec![(2, 34, rv, 0, 65535)]));
+        let id = pair
+            .m
+            .submit(0, UserReq::ReadHeaders(vec![(2, 34, rv, 0, 65535)]));
         settle().await;
         pair.pump();
-        pair.run_until(20_000, |pr| pr.m.result_of(id).is_some() && pr.in_flight.is_empty(), |_, _| {}).await;
-        let got: Vec<(u16, f64)> = pair.m.assocs[0].2.take().into_iter().filter_map(|i| if let Item::M(rec) = i { if rec.ptype == ra::PType::AnalogDeadBand { if let RVal::F64(v) = rec.val { return Some((rec.index, v)); } } None } else { None }).collect();
+        pair.run_until(
+            20_000,
+            |pr| pr.m.result_of(id).is_some() && pr.in_flight.is_empty(),
+            |_, _| {},
+        )
+        .await;
+        let got: Vec<(u16, f64)> = pair.m.assocs[0]
+            .2
+            .take()
+            .into_iter()
+            .filter_map(|i| {
+                if let Item::M(rec) = i {
+                    if rec.ptype == ra::PType::AnalogDeadBand {
+                        if let RVal::F64(v) = rec.val {
+                            return Some((rec.index, v));
+                        }
+                    }
+                    None
+                } else {
+                    None
+                }
+            })
+            .collect();
         let want: Vec<(u16, f64)> = model.iter().map(|(i, v)| (*i, *v)).collect();
         ctx.push(format!("READ g34v{rv} -> {got:?}"));
         out::eval(1);
         if got != want {
-            report(a, "A4", idx, &("dead_band_read".into(), format!("g34v{rv}"), format!("dead-bands are {want:?}; READ g34v{rv} delivered {got:?}")), &[], &ctx);
+            report(
+                a,
+                "A4",
+                idx,
+                &(
+                    "dead_band_read".into(),
+                    format!("g34v{rv}"),
+                    format!("dead-bands are {want:?}; READ g34v{rv} delivered {got:?}"),
+                ),
+                &[],
+                &ctx,
+            );
         } else {
             out::count("A4_dead_band_read_ok", 1);
             out::count(&format!("A4_read_ok_g34v{rv}"), 1);
@@ -1199,7 +1767,10 @@ async fn dead_bands(a: &ShardArgs, idx: u64) {
 }
 
 pub fn run(a: &ShardArgs) -> Result<(), String> {
-    let only: Option<u64> = a.replay.as_ref().and_then(|p| super::common::replay_scenario(p));
+    let only: Option<u64> = a
+        .replay
+        .as_ref()
+        .and_then(|p| super::common::replay_scenario(p));
     if only.is_none() {
         strictness(a);
     }
@@ -1225,7 +1796,22 @@ pub fn run(a: &ShardArgs) -> Result<(), String> {
             _ => run_scenario(dead_bands(a, idx)),
         }
         for p in crate::verif::util::take_panics() {
-            out::violation(P, "C09.panic", &crate::verif::util::norm_location(&p.location), J::obj(vec![("why", J::s(format!("panic {} at {}", p.message, p.location)))]), J::obj(vec![("check", J::s("c09")), ("seed", J::U(a.seed)), ("shard", J::U(a.shard)), ("nshards", J::U(a.nshards)), ("scenario", J::U(idx))]));
+            out::violation(
+                P,
+                "C09.panic",
+                &crate::verif::util::norm_location(&p.location),
+                J::obj(vec![(
+                    "why",
+                    J::s(format!("panic {} at {}", p.message, p.location)),
+                )]),
+                J::obj(vec![
+                    ("check", J::s("c09")),
+                    ("seed", J::U(a.seed)),
+                    ("shard", J::U(a.shard)),
+                    ("nshards", J::U(a.nshards)),
+                    ("scenario", J::U(idx)),
+                ]),
+            );
         }
     }
     Ok(())
